@@ -359,13 +359,13 @@ func (v *Visitor) EnterField(ref int) {
 		} else {
 			str := &resolve.String{
 				Nullable:   false,
-				Path:       []string{v.Operation.FieldAliasOrNameString(ref)},
+				Path:       []string{v.fieldDataKey(ref)},
 				IsTypeName: true,
 			}
 			v.currentField.Value = str
 		}
 	} else {
-		path := []string{v.Operation.FieldAliasOrNameString(ref)}
+		path := []string{v.fieldDataKey(ref)}
 		v.currentField.Value = v.resolveFieldValue(ref, fieldDefinitionTypeRef, true, path)
 	}
 
@@ -373,6 +373,17 @@ func (v *Visitor) EnterField(ref int) {
 	v.fieldStack = append(v.fieldStack, v.currentField)
 
 	v.mapFieldConfig(ref)
+}
+
+// fieldDataKey returns the key under which the field's value is found in the data of its parent.
+// Data sources answer with the response names (aliases) the operation uses; the introspection
+// data source answers with the complete introspection document, which is keyed by field names:
+// below its root fields (on the introspection types __Schema, __Type, ...) an alias must not change the key.
+func (v *Visitor) fieldDataKey(ref int) string {
+	if bytes.HasPrefix(v.Walker.EnclosingTypeDefinition.NameBytes(v.Definition), []byte("__")) {
+		return v.Operation.FieldNameString(ref)
+	}
+	return v.Operation.FieldAliasOrNameString(ref)
 }
 
 func (v *Visitor) mapFieldConfig(ref int) {
